@@ -216,3 +216,77 @@ def full_sign_ok(sess, suite, kps, pkp, signers, msg=None, what="sign", replay_f
             v = verify(sess, suite, pk["vk"], msg, r["sig"])
             okall &= sess.oracle(v.ok, "%s: aggregated signature does not verify (%s)" % (what, v.raw), rp())
     return okall
+
+
+# ---------------------------------------------------------------- DKG / refresh helpers
+
+def r1_str(pkgs, me):
+    """round-one map seen by `me`: every other participant's package"""
+    return ";".join("%s:%s" % (j, p) for j, p in pkgs.items() if j != me)
+
+
+def r2_str(r2out, me):
+    """round-two map received by `me`: r2out[sender][me]"""
+    return ";".join("%s:%s" % (j, r2out[j][me]) for j in r2out if j != me and me in r2out[j])
+
+
+class Dkg:
+    """one honest DKG (or distributed refresh) run, keeping every intermediate value"""
+
+    def __init__(self, sess, suite, n, t, ids, gate=EXACT, refresh=False, tag=""):
+        self.sess, self.suite, self.n, self.t, self.ids = sess, suite, n, t, ids
+        self.p = "refresh_dkg" if refresh else "dkg"
+        self.gate = gate
+        self.sp1, self.pkg1, self.sp2, self.r2, self.kp, self.pkp = {}, {}, {}, {}, {}, {}
+        self.ok = True
+        self.tag = tag
+
+    def part1(self):
+        for i in self.ids:
+            r = self.sess.call("%s1 %s id=%s n=%d t=%d tape=%s" % (self.p, self.suite, i, self.n, self.t, self.sess.tape(128 * self.t + 512)), self.gate, self.p + "1")
+            if not r.ok:
+                self.ok = False
+                self.err = r
+                return self
+            self.sp1[i], self.pkg1[i] = r["sp"], r["pkg"]
+        return self
+
+    def part2(self):
+        for i in self.ids:
+            r = self.sess.call("%s2 %s sp=%s r1=%s" % (self.p, self.suite, self.sp1[i], r1_str(self.pkg1, i)), self.gate, self.p + "2")
+            if not r.ok:
+                self.ok = False
+                self.err = r
+                return self
+            self.sp2[i] = r["sp2"]
+            self.r2[i] = dict(x.split(":") for x in recs(r["r2"]))
+        return self
+
+    def part3(self, old_kps=None, old_pkp=None):
+        for i in self.ids:
+            extra = "" if old_kps is None else " pkp=%s kp=%s" % (old_pkp, old_kps[i])
+            r = self.sess.call("%s3 %s sp2=%s r1=%s r2=%s%s" % (self.p, self.suite, self.sp2[i], r1_str(self.pkg1, i), r2_str(self.r2, i), extra), self.gate, self.p + "3")
+            if not r.ok:
+                self.ok = False
+                self.err = r
+                return self
+            self.kp[i], self.pkp[i] = r["kp"], r["pkp"]
+        return self
+
+    def run(self):
+        self.part1()
+        if self.ok:
+            self.part2()
+        if self.ok:
+            self.part3()
+        return self
+
+
+def r1_fields(pkg):
+    """'c1,c2:R:z' -> dict"""
+    c, R, z = pkg.split(":")
+    return {"comm": c.split(",") if c else [], "R": R, "z": z}
+
+
+def mk_r1(comm, R, z):
+    return "%s:%s:%s" % (",".join(comm), R, z)
